@@ -60,6 +60,7 @@ class Obs:
         self.reuse_probes: list[dict[str, Any]] = []
         self.lost_not_closed: list[str] = []
         self.lost_events: list[dict[str, Any]] = []   # end-of-instant facts about every transport whose connection_lost was delivered
+        self.timer_fired: list[tuple[int, float, str]] = []
         self.stall: dict[str, Any] = {}
         self.peer_disc_handed_over: list[dict[str, Any]] = []   # iteration-boundary facts: a well-formed DisconnectRequest has been read from the socket
         self.session_tag: dict[int, str] = {}   # connection idx -> tag of the stop callback the application passed when it opened that session
@@ -478,6 +479,10 @@ class Runner:
 
     def schedule_faults(self) -> None:
         sim = self.sim
+        if self.spec.get("suspend"):
+            # [from, to] in seconds after the scenario's start: the client process is stopped in between (the device and the network are not)
+            a, b = self.spec["suspend"]
+            sim.suspend_process(sim.start_time + a, sim.start_time + b)
         for f in self.spec["faults"]:
             p = f["point"]
             if "k" in p:
@@ -611,6 +616,7 @@ class Runner:
             obs.transports = list(sim.transports)
             obs.sockets = list(sim.net.sockets)
             obs.send_batches = list(sim.send_batches)
+            obs.timer_fired = list(sim.timer_fired)
             obs.trace = sim.trace(400)
             if self.program_task.done() and not self.program_task.cancelled() and self.program_task.exception():
                 obs.harness_errors.append(f"program: {self.program_task.exception()!r}")
